@@ -12,9 +12,10 @@
                                                                      the order of ties is an oracle argument, validated)
        clap/finish/whistle = hitsound_set & 2/4/8                -> [has_bit]
        df_src.groupby("offset")                                  -> [group_by hn_off]
-       df = concat(tgt.notes).sort_values("offset").reset_index()-> [sort_with]      (taken BEFORE the reset below)
-       osu_tgt = deepcopy(osu_tgt); osu_tgt.reset_samples()      -> only the event samples are emptied: the note
-                                                                     frames are overwritten from df at the end
+       osu_tgt = deepcopy(osu_tgt); osu_tgt.reset_samples()      -> [reset_note]: the copy starts silent (hitsound/sample/
+                                                                     addition/custom set = 0, file = ""; volume kept),
+                                                                     event samples emptied
+       df = concat(tgt.notes).sort_values("offset").reset_index()-> [sort_with]      (taken from the silent copy)
        for offset, group in df_src:                              -> [run_groups]/[step]
            slot_indexes = positions of df rows at that offset ; slot = 0 ; slot_max = len(slot_indexes)
            for volume-group (ascending volume; files ';'-joined; bit columns summed):     -> [group_by hn_vol], [plan_groups]
@@ -23,9 +24,13 @@
                    val = 2*(claps>0) + 4*(finishes>0) + 8*(whistles>0), each decremented when positive
                    df[slot].hitsound_set = val ; df[slot].volume = max(volume, 0) ; slot += 1
                for file in files:                                -> [file_loop]
-                   if slot == slot_max: samples.append(offset, file, volume) ; break     (the others are dropped)
+                   if slot == slot_max: samples.append(offset, file, volume) ; continue  (every file without a note is sampled)
                    df[slot].hitsound_file = file ; df[slot].volume = max(volume, 0) ; slot += 1
        holds = df[~isnan(length)] ; hits = df[isnan(length)]     -> tail of [hitsound_copy]
+
+   This is the routine as repaired by /repo commits 19e0cd1 (`break` -> `continue` in the file loop) and a52f30c
+   (reset before the target frame is built; reset_samples really clears the note columns).  The behaviour before
+   those commits is kept at the end of the file as [*_OLD], only for the refutation witnesses.
 *)
 From Coq Require Import ZArith List Bool Arith.
 Import ListNotations.
@@ -114,13 +119,13 @@ Fixpoint default_loop (k c f w free : nat) (vol : Z) : list write * nat :=
       end
   end.
 
-(* for file in files: if slot == slot_max: samples.append(...); break ; ... *)
+(* for file in files: if slot == slot_max: samples.append(...); continue ; ... *)
 Fixpoint file_loop (files : list Z) (free : nat) (off vol : Z) : list write * list hsample * nat :=
   match files with
   | [] => ([], [], free)
   | x :: rest =>
       match free with
-      | O => ([], [mkS off [x] vol], O)
+      | O => let '(ws, ss, fr) := file_loop rest O off vol in (ws, mkS off [x] vol :: ss, fr)
       | S free' =>
           let '(ws, ss, fr) := file_loop rest free' off vol in
           (WFile x (Z.max vol 0) :: ws, ss, fr)
@@ -168,13 +173,65 @@ Fixpoint run_groups (ogs : list (Z * list hnote)) (st : list hnote * list hsampl
   | og :: rest => run_groups rest (step st og)
   end.
 
+(* OsuMap.reset_samples on the copy: the four set columns and the file column are cleared, volume is kept *)
+Definition reset_note (r : hnote) : hnote := mkN (hn_off r) (hn_col r) (hn_len r) 0 0 0 0 (hn_vol r) [0].
+
 Definition is_hit (r : hnote) : bool := match hn_len r with None => true | Some _ => false end.
 
 (* psrc / ptgt: the order in which sort_values left the source rows (after the filter) / the target rows *)
 Definition hitsound_copy (psrc ptgt : list nat) (src tgt : hmap) : option hmap :=
-  match sort_with psrc (filter loud (notes_df src)), sort_with ptgt (notes_df tgt) with
+  match sort_with psrc (filter loud (notes_df src)), sort_with ptgt (map reset_note (notes_df tgt)) with
   | Some s, Some df =>
       let '(df', smp) := run_groups (group_by hn_off s) (df, []) in
+      Some (mkM (filter is_hit df') (filter (fun r => negb (is_hit r)) df') smp)
+  | _, _ => None
+  end.
+
+(* ================================================================== OLD: the routine before commits 19e0cd1 / a52f30c.
+   Kept only so that the refutation theorems can exhibit what the repairs removed. *)
+(* OLD: `break` after the first overflowing file *)
+Fixpoint file_loop_OLD (files : list Z) (free : nat) (off vol : Z) : list write * list hsample * nat :=
+  match files with
+  | [] => ([], [], free)
+  | x :: rest =>
+      match free with
+      | O => ([], [mkS off [x] vol], O)
+      | S free' =>
+          let '(ws, ss, fr) := file_loop_OLD rest free' off vol in
+          (WFile x (Z.max vol 0) :: ws, ss, fr)
+      end
+  end.
+
+Fixpoint plan_groups_OLD (off : Z) (vgs : list (Z * list hnote)) (free : nat) : list write * list hsample :=
+  match vgs with
+  | [] => ([], [])
+  | (vol, g) :: rest =>
+      let c := count_bit 2 g in
+      let f := count_bit 4 g in
+      let w := count_bit 8 g in
+      let '(w1, free1) := default_loop (Nat.max c (Nat.max f w)) c f w free vol in
+      let '(w2, s2, free2) := file_loop_OLD (group_files g) free1 off vol in
+      let '(w3, s3) := plan_groups_OLD off rest free2 in
+      (w1 ++ w2 ++ w3, s2 ++ s3)
+  end.
+
+Definition step_OLD (st : list hnote * list hsample) (og : Z * list hnote) : list hnote * list hsample :=
+  let '(df, smp) := st in
+  let '(off, g) := og in
+  let '(ws, ss) := plan_groups_OLD off (group_by hn_vol g) (slots_at off df) in
+  (apply_at off ws df, smp ++ ss).
+
+Fixpoint run_groups_OLD (ogs : list (Z * list hnote)) (st : list hnote * list hsample) : list hnote * list hsample :=
+  match ogs with
+  | [] => st
+  | og :: rest => run_groups_OLD rest (step_OLD st og)
+  end.
+
+(* OLD: the target frame was taken before the (ineffective) reset, so the target's own sounds stayed *)
+Definition hitsound_copy_OLD (psrc ptgt : list nat) (src tgt : hmap) : option hmap :=
+  match sort_with psrc (filter loud (notes_df src)), sort_with ptgt (notes_df tgt) with
+  | Some s, Some df =>
+      let '(df', smp) := run_groups_OLD (group_by hn_off s) (df, []) in
       Some (mkM (filter is_hit df') (filter (fun r => negb (is_hit r)) df') smp)
   | _, _ => None
   end.
